@@ -398,6 +398,11 @@ func (g *gen) specField(e *env, x ast.Expr, v sval, name string) sval {
 	return sval{}
 }
 
+func isMapType(t types.Type) bool {
+	_, ok := t.Underlying().(*types.Map)
+	return ok
+}
+
 func (g *gen) specIndex(e *env, x ast.Expr, v, i sval) sval {
 	switch {
 	case v.sort == "String":
@@ -406,6 +411,13 @@ func (g *gen) specIndex(e *env, x ast.Expr, v, i sval) sval {
 		et := v.gt.Underlying().(*types.Slice).Elem()
 		h, _ := g.elemArr(e.st, et)
 		return g.goVal(app("select", app("select", h, app("s.base", v.t)), addOff(app("s.off", v.t), i.t)), et)
+	case v.gt != nil && isMapType(v.gt):
+		// m[k]: the value stored under k, the zero value when absent (or the map is nil)
+		mt := v.gt.Underlying().(*types.Map)
+		if vals, present, ok := g.mapHeaps(e.st, mt); ok {
+			in := sAnd(sNot(sEq(v.t, "0")), app("select", app("select", present, v.t), i.t))
+			return g.goVal(sIte(in, app("select", app("select", vals, v.t), i.t), g.sorts.zero(mt.Elem())), mt.Elem())
+		}
 	case strings.HasPrefix(v.sort, "(Array "):
 		// spec-level array
 		return sval{t: app("select", v.t, i.t), sort: arrayRange(v.sort)}
